@@ -63,21 +63,20 @@ theorem delete_live {r : Router} {L : List LiveT} (hreg : Reg r.root L) (hrc : R
       (∀ k', (∀ e ∈ lt.exps, ∀ i, Node.find r.root e.2 = some i → i.cell ≠ some k') →
         rcGet (deleteAll lt.exps r.root r.rc none).2.1 k' = rcGet r.rc k') := by
     by_cases hl : lt.exps.length > 1
-    · obtain ⟨k, _, hrck, hcells⟩ := hrc.multi lt hlt hl
-      have hpres : ∀ e ∈ lt.exps, ∃ i, Node.find r.root e.2 = some i ∧ i.cell = some k ∧ i.data = lt.data := by
-        intro e he
-        obtain ⟨i, hf, hok⟩ := hfound e he
-        exact ⟨i, hf, hcells e he i hf, hok.2.1⟩
-      obtain ⟨h1, _, _, h3⟩ := deleteAll_shared k lt.data lt.exps r.root r.rc none [] hreg.shp hwf
-        (by intro e _ h; cases h) (fun e he _ => hpres e he) hrck
+    · obtain ⟨h1, _, h3⟩ := deleteAll_cells lt.data lt.exps r.root r.rc none [] hreg.shp hwf
+        (by intro e _ h; cases h)
+        (by
+          intro e he _
+          obtain ⟨i, hf, hok⟩ := hfound e he
+          obtain ⟨k, hc, _, hrck⟩ := hrc.multi lt hlt hl e he i hf
+          exact ⟨i, k, hf, hc, hok.2.1, hrck⟩)
       refine ⟨h1 (nkeys_pos hne), ?_⟩
       intro k' hk'
       apply h3
-      intro heq
-      subst heq
-      obtain ⟨e, he⟩ := List.exists_mem_of_ne_nil _ hne
+      intro e he _ hca
       obtain ⟨i, hf, _⟩ := hfound e he
-      exact hk' e he i hf (hcells e he i hf)
+      rw [cellAt_of_find hf] at hca
+      exact hk' e he i hf hca
     · have hlen : lt.exps.length ≤ 1 := by omega
       cases hexps : lt.exps with
       | nil => exact absurd hexps hne
@@ -112,23 +111,20 @@ theorem delete_live {r : Router} {L : List LiveT} (hreg : Reg r.root L) (hrc : R
       have hxt : x.template ≠ lt.template := by simpa using hx2
       rw [hold x hx1 hxt e he] at hf
       exact hrc.single x hx1 hlen e he i hf
-    · intro x hx hlen
+    · intro x hx hlen e he i hf
       obtain ⟨hx1, hx2⟩ := List.mem_filter.1 hx
       have hxt : x.template ≠ lt.template := by simpa using hx2
-      obtain ⟨k, hk, hrck, hcells⟩ := hrc.multi x hx1 hlen
-      refine ⟨k, by rw [hnextEq]; exact hk, ?_, ?_⟩
-      · rw [hrcEq, hout.2 k]
-        · exact hrck
-        · -- a cell of another template is not a cell of the deleted one
-          intro e he i hf hci
-          have hxne : x.exps ≠ [] := by intro h; rw [h] at hlen; simp at hlen
-          obtain ⟨e2, he2⟩ := List.exists_mem_of_ne_nil _ hxne
-          obtain ⟨i2, hf2, _⟩ := hreg.complete x hx1 e2 he2
-          have := hrc.sep lt hlt x hx1 e he e2 he2 i i2 k hf hf2 hci (hcells e2 he2 i2 hf2)
-          exact hxt this.symm
-      · intro e he i hf
-        rw [hold x hx1 hxt e he] at hf
-        exact hcells e he i hf
+      rw [hold x hx1 hxt e he] at hf
+      obtain ⟨k, hc, hk, hrck⟩ := hrc.multi x hx1 hlen e he i hf
+      refine ⟨k, hc, by rw [hnextEq]; exact hk, ?_⟩
+      rw [hrcEq, hout.2 k, hrck]
+      · apply cellKeys_congr
+        intro y hy _
+        simp only [cellAt, hold x hx1 hxt y hy]
+      · -- a cell of another template is not a cell of the deleted one
+        intro e' he' i' hf' hci'
+        have := hrc.sep lt hlt x hx1 e' he' e he i' i k hf' hf hci' hc
+        exact hxt this.symm
     · intro x1 hx1 x2 hx2 e1 he1 e2 he2 i1 i2 k hf1 hf2 hc1 hc2
       obtain ⟨hx1a, hx1b⟩ := List.mem_filter.1 hx1
       obtain ⟨hx2a, hx2b⟩ := List.mem_filter.1 hx2
